@@ -83,11 +83,11 @@ PROPS = {
     },
     "C14": {
         "rules": [sib.rule_removed_pairing, sib.rule_obs_partition, mpt.rule_mpt_c14, tab.rule_rm_points, tab.rule_cluster_casts,
-                  lazy.rule_lazy_cascade],
+                  lazy.rule_lazy_cascade, sib.rule_revision_lookup_siblings],
         "explanation": "R-PAIR P1: every set_unused_xy/z in LocalNetwork is post-dominated by removed(id, code) with a reason code of the "
                        "same axis class; partition: revision_observations puts every observation on exactly one of the used / removed "
                        "lists, cleared first, and counts the used list; R-MPT: remove_huge_abs_terms re-triggers the revision after "
-                       "deactivating observations; removed(id, code) restarts the whole pipeline (update cascade); reason tables and cluster casts agree (R-TAB/R-VIS). "
+                       "deactivating observations; removed(id, code) restarts the whole pipeline (update cascade); reason tables and cluster casts agree (R-TAB/R-VIS); every point an observation refers to is looked up, checked for existence before use and put through the same set of status tests as the other points of that observation in LocalRevision (R-SIB). "
                        "Equality of results with the reduced input is not decided.",
     },
     "C16": {
